@@ -28,7 +28,7 @@ FILE_PROPS = {
     "valid/validvar.go": ["C18", "C03", "C02", "C13", "C05"],
     "valid/init.go": ["C05", "C15", "C11", "C12", "C08"],
     "valid/internal/stack.go": ["C14"],
-    "valid/internal/byte2str.go": ["C14", "C12"],
+    "valid/internal/common.go": ["C14", "C12"],
     "file/parse.go": ["C06", "C07", "C19"],
     "file/handletag.go": ["C06", "C07", "C19"],
     "file/witre.go": ["C06", "C07", "C19"],
@@ -48,6 +48,8 @@ OPS = [
 def gen_mutants(repo, files, rng, per_file):
     out = []
     for f in files:
+        if not os.path.exists(os.path.join(repo, f)):
+            continue
         src = open(os.path.join(repo, f)).read().split("\n")
         cands = []
         in_block_comment = False
